@@ -225,9 +225,19 @@ def run(ctx, report):
     # literal names the assembler special-cases
     ac = arch.method('x86_mn', 'asm_candidates')
     special = set()
-    for n in walk_no_nested(ac):
-        if isinstance(n, ast.Compare) and u(n.left) == 'name' and isinstance(n.comparators[0], ast.Constant) and isinstance(n.comparators[0].value, str):
-            special.add(n.comparators[0].value)
+    # asm_candidates and the helpers it calls (a method of x86_mn through self, a module-level function by name)
+    ac_closure = [ac]
+    x86mn_methods = arch.methods('x86_mn')
+    for c_ in ast.walk(ac):
+        if isinstance(c_, ast.Call):
+            if isinstance(c_.func, ast.Attribute) and u(c_.func.value) == 'self' and c_.func.attr in x86mn_methods and x86mn_methods[c_.func.attr] not in ac_closure:
+                ac_closure.append(x86mn_methods[c_.func.attr])
+            elif isinstance(c_.func, ast.Name) and c_.func.id in arch.funcs and arch.funcs[c_.func.id] not in ac_closure:
+                ac_closure.append(arch.funcs[c_.func.id])
+    for f_ in ac_closure:
+        for n in walk_no_nested(f_):
+            if isinstance(n, ast.Compare) and u(n.left) == 'name' and isinstance(n.comparators[0], ast.Constant) and isinstance(n.comparators[0].value, str):
+                special.add(n.comparators[0].value)
     h = E['mnemo_mmx_hash']
     string_ops = set(E['rep_mov_cmp']) | set(E['rep_sto_lod_sca'])
     for pn, srcs in sorted(printed_map.items()):
@@ -252,7 +262,7 @@ def run(ctx, report):
                 and all(isinstance(k, ast.Constant) and isinstance(k.value, str) for k in n.value.keys):
             nm_ = n.targets[0].id
             used_dis = any(isinstance(x, ast.Name) and x.id == nm_ for x in ast.walk(so))
-            used_asm = any(isinstance(x, ast.Name) and x.id == nm_ for x in ast.walk(ac))
+            used_asm = any(isinstance(x, ast.Name) and x.id == nm_ for f_ in ac_closure for x in ast.walk(f_))
             if all(isinstance(v, ast.Attribute) and u(v).startswith('x86mndb.') for v in n.value.values) and used_dis \
                     and all('fence' in u(v) for v in n.value.values):
                 dis_map = dict((k.value, u(v)) for k, v in zip(n.value.keys, n.value.values))
@@ -325,15 +335,31 @@ def run(ctx, report):
                         pass
             got[label] = loc['mnemo'][0]
         # assembler: the statements of asm_candidates that assign name
-        loc = {'name': b, 'args_eval': [dict(x) for x in two_regs], 'args': [dict(x) for x in two_regs]}
+        from ..consteval import class_obj as _co3, Native as _Nat3
+        loc = {'name': b, 'args_eval': [dict(x) for x in two_regs], 'args': [dict(x) for x in two_regs], 'self': _co3(arch, 'x86_mn', 'self'), 'prefix': []}
+        scope3b = dict(scope3)
+        for fname_, fnode_ in arch.funcs.items():
+            scope3b.setdefault(fname_, fnode_)
+        lg_ = _Obj3('log')
+        for k_ in ('debug', 'error', 'info', 'warning', 'warn'):
+            setattr(lg_, k_, _Nat3(lambda *a_: None))
+        scope3b['log'] = lg_
         sk = 0
+
+        def _assigns_name(x):
+            if not isinstance(x, ast.Assign):
+                return False
+            t_ = x.targets[0]
+            return u(t_) == 'name' or (isinstance(t_, ast.Tuple) and any(u(e_) == 'name' for e_ in t_.elts))
         for st_ in ac.body:
-            if any(isinstance(x, ast.Assign) and u(x.targets[0]) == 'name' for x in ast.walk(st_)):
+            if any(_assigns_name(x) for x in ast.walk(st_)):
                 try:
-                    _Ev3(scope3).exec_stmts([st_], loc)
+                    _Ev3(scope3b).exec_stmts([st_], loc)
                 except (_NC3, _PR3):
                     sk += 1
         back = loc['name']
+        if back == h.get(a):
+            back = a            # the statements went on to the row name of the mnemonic (mov#lps#): the alias was mapped back first
         if got == {'reg': b, 'mem': a} and back == a:
             R3.ok(inst, sample='%s reg,reg printed as %s (the memory form keeps %s) and assembled back through %s' % (a, b, a, a))
         elif back != a and sk:
@@ -494,6 +520,10 @@ def run(ctx, report):
     shared_table_rule(R11, [ctx.mod('ia32_arch'), ctx.mod('parse_ad'), ctx.mod('ia32_att')])
 
     # ---------------------------------------------------------------- D12 the rendering determines the immediate (shared with C01.D13)
+    R13 = report.rule('C03.D13', 'the segment override of a memory operand comes in front of the mandatory prefix of an MMX/SSE opcode in the prefixes asm_candidates collects '
+                      '(asm_candidates interpreted up to the operand-size decision on 36 lines): the canonical bytes are among the candidates of their rendering', floor=10)
+    from .c02 import size_vote_rule as _svr, x86model as _xm13
+    _svr(ctx, R13, _xm13(ctx), what='order')
     R12 = report.rule('C03.D12', 'x86_mn.__str__ evaluated as a whole on every decoder form with an immediate: immediates that differ in a low bit, in bits 3-7 or in the top bit give '
                       'different texts (a text that folds the immediate cannot assemble back to the bytes)', floor=150)
     from .c01 import render_immediate_rule
@@ -647,6 +677,7 @@ def run(ctx, report):
 
 
 MUTANTS = [
+    ('mandatory-prefix-in-front', 'miasmx/arch/ia32_arch.py', "            if len(p) == 1 and p[0] > 0:\n                prefix.append(mmx_prefixes[p[0]])", "            if len(p) == 1 and p[0] > 0:\n                prefix.insert(0, mmx_prefixes[p[0]])", 'C03.D13'),
     ('sse-cmp-pseudo-op-revived', 'miasmx/arch/ia32_arch.py', "'cmpsd', 'cmpss'] and len(args)==2 \\\n", "'cmpsd', 'cmpss'] and len(args)==3 \\\n", 'C03.D12'),
     ('fcom-in-float-arith', 'miasmx/arch/ia32_arch.py', "float_arith =    ['fadd','fsub','fmul','fdiv','fsubr','fdivr']", "float_arith =    ['fadd','fsub','fmul','fdiv','fsubr','fdivr','fcom']", 'C03.D8'),
     ('fcom-reg-sd-false', 'miasmx/arch/ia32_arch.py', 'addop("fcom",  [0xD8, 0xD0],       reg,   no_rm         , {}                 ,{sd:True} ', 'addop("fcom",  [0xD8, 0xD0],       reg,   no_rm         , {}                 ,{sd:False}', 'C03.D8'),
